@@ -647,6 +647,37 @@ def eval_reference(desc):
     return res
 
 
+def prefetch_references(descs):
+    """Evaluate the not yet memoised references of one run, sharing the creating call between the calls that use the same
+    handle: one child executes `fresh process + creating call`, then forks one grandchild per dependent call, so every
+    grandchild is in exactly the state the single evaluation would be in (fresh + creator), at a fraction of the cost."""
+    groups = {}
+    for d in descs:
+        key = json.dumps(d, sort_keys=True)
+        if key in _REF_MEMO or d.get("creator", "absent") in ("absent", None):
+            continue
+        groups.setdefault(json.dumps(d["creator"], sort_keys=True), {})[key] = d
+    for ckey, members in groups.items():
+        if len(members) < 2:
+            continue
+        creator = json.loads(ckey)
+
+        def work(creator=creator, members=members):
+            H = {}
+            c = dict(creator)
+            c["out"] = "h"
+            exec_op(c, H)
+            out = {}
+            for key, d in members.items():
+                op = {k: v for k, v in d.items() if k != "creator"}
+                op["h"] = "h"
+                out[key] = fork_eval(lambda op=op: exec_op(op, dict(H)))
+            return out
+
+        for key, res in fork_eval(work, timeout=300).items():
+            _REF_MEMO[key] = res
+
+
 # ------------------------------------------------------------------------------- spec generation
 _HCTR = [0]
 
@@ -1136,6 +1167,16 @@ def run(spec: dict, decider: Decider, keep_events: bool = False) -> RunResult:
     try:
         if spec["mode"] == "history":
             out = fork_eval(lambda: exec_history(spec))
+            creators = {}
+            pre = []
+            for op, o in zip(spec["ops"], out["ops"]):
+                if op["op"] in ("compile", "load"):
+                    creators[op["out"]] = op
+                if not (op.get("fault") and op["fault"]["kind"] == "interrupt") and not (isinstance(o["res"], dict) and o["res"].get("skip") == "no-handle"):
+                    pre.append(ref_descriptor(op, creators))
+                if op["op"] == "drop":
+                    creators.pop(op["h"], None)
+            prefetch_references(pre)
             creators = {}
             interrupted_before = False
             failed_before = False
